@@ -12,7 +12,10 @@ use diagnostics::{Diagnostic, Diagnostics, Severity, Stage};
 use text_size::TextRange;
 
 use indexmap::IndexMap;
+#[cfg(not(goml_verif))]
 use std::collections::HashMap;
+#[cfg(goml_verif)]
+use crate::verif_hash::HashMap;
 use std::hash::Hash;
 
 #[derive(Debug, Clone)]
